@@ -172,6 +172,20 @@ class World:
                 return property(get, set_)
             networking_thread = _slot('nt')
             new_networking_thread = _slot('newnt')
+
+            def _react(self, packet):
+                # between `read_packet` returning and the reaction a real thread can be preempted: a scheduling point.
+                # When the reacting thread has been interrupted meanwhile AND a later connect() has happened, the packet
+                # (read from the OLD transport) is about to be handled by whatever reactor the object has NOW.
+                me = S.me()
+                if me is not None and me >= 100:
+                    read_sess = len(world.net.connects)
+                    S.before('react', getattr(packet, 'packet_name', None))
+                    S.emit('react', getattr(packet, 'packet_name', None))
+                    nt = [n for n in world.nts if n.sched_tid == me]
+                    if nt and nt[0]._int and len(world.net.connects) > read_sess:
+                        world.events.append(('stale-react', me, getattr(packet, 'packet_name', None), type(self.reactor).__name__))
+                return C.Connection._react(self, packet)
         self.conn = IConnection('h', 1, username='u', allowed_versions={757}, handle_exception=on_exc,
                                 handle_exit=lambda: on_exit())
 
@@ -276,7 +290,9 @@ def run_world(C, servers, rl, rh, progs, mode, rng, re_=0):
             en = [t for t in tids if S.enabled(t)]
             if not en:
                 break
-            if mode == 'sequential':
+            if callable(mode):
+                t = mode(en, S)
+            elif mode == 'sequential':
                 nts = sorted(t for t in en if t >= 100)
                 t = nts[0] if nts else sorted(en)[0]
             else:
@@ -379,6 +395,24 @@ def oracle(ctx, servers, rl, rh, progs, r, label):
         bad = 'connect() from the exception handler of a connection that has just ended with an error was refused ' \
               'with an invalid-state error although no other connection had been started'
         key_kind = 'handler-reconnect-refused'
+    # every server that received anything can read the client's first frames as plain, uncompressed frames (none of the
+    # stand-in servers announces compression or encryption before the login start)
+    if not bad:
+        for k, (hs, name, errs, nframes) in enumerate(r.get('server_view', [])):
+            if errs or (nframes and (hs is None or hs.get('protocol') != 757 or hs.get('next') not in (1, 2))):
+                stale = [e for e in r['events'] if e[0] == 'stale-react' and e[2] in ('set compression', 'encryption request')]
+                if stale:
+                    # an interrupted thread handled a packet it had read from the PREVIOUS transport after a later
+                    # connect(): the reaction went to the new session's reactor
+                    key_kind = 'stale-reaction-applied-to-new-session'
+                    why = 'networking thread %d, already interrupted, reacted to the %r packet it had read from the previous transport ' \
+                          'after a later connect() (reactor by then: %s)' % (stale[0][1], stale[0][2], stale[0][3])
+                else:
+                    key_kind = 'new-session-unreadable'
+                    why = 'no stale reaction was observed'
+                bad = 'the server of connection #%d cannot read the client\'s first frames (handshake %r, parse errors %r): %s' % (
+                    k + 1, hs, errs, why)
+                break
     dist = [e for e in r['events'] if e[0] == 'disturbed']
     if dist and not bad:
         bad = 'a refused %s (InvalidState) nevertheless performed socket operations on behalf of the caller: %r' % (
@@ -411,7 +445,8 @@ def oracle(ctx, servers, rl, rh, progs, r, label):
     if bad:
         ctx.violation('%s: %s' % (label, bad),
                       {'servers': servers, 'rl': rl, 'rh': rh, 'programs': progs, 'schedule': r['ran'][:200]},
-                      key={'kind': key_kind} if key_kind.startswith('new-connection-torn-down-by-predecessor') else
+                      key={'kind': key_kind} if key_kind.startswith('new-connection-torn-down-by-predecessor')
+                      or key_kind == 'stale-reaction-applied-to-new-session' else
                       {'kind': key_kind, 'servers': servers, 'programs': progs, 'schedule': r['ran'][:200]})
 
 
@@ -449,7 +484,7 @@ def run(ctx):
     # ------------------------------------------------------------------ two user threads, random schedules
     for i in range(ctx.scale(150, 2500)):
         progs = [[rng.choice(OPS) for _ in range(rng.randrange(1, 4))] for _ in range(2)]
-        servers = [rng.choice('aaadfr') for _ in range(8)]
+        servers = [rng.choice('aaadfrzZ') for _ in range(8)]
         rl = rng.choice([0, 0, 1])
         rh = rng.choice([0, 0, 1])
         re_ = rng.choice([0, 0, 1])
@@ -487,7 +522,33 @@ def run(ctx):
                           {'servers': servers, 'schedule': r['ran'][:200]},
                           key={'kind': 'compressed-then-reconnect', 'first': first})
         oracle(ctx, servers, rl, rh, [['c']], r, 'compressed session then reconnect')
+    # ---- directed schedules around the window between `read_packet` returning and the reaction: the networking thread is
+    # held right before reacting to a packet of the given kind while the user thread runs disconnect() and connect() to
+    # completion, then everything runs on.  (Random walks hardly ever hit this window.)
+    for i in range(ctx.scale(12, 60)):
+        first = 'zZdp'[i % 4]
+        hold = ['set compression', 'login success', 'disconnect', 'set compression'][i % 4]
+        servers = [first, rng.choice('ap'), 'a', 'a']
+        ops = ['c', rng.choice(['d0', 'd1']), 'c']
+        held = {'n': 0}
+
+        def policy(en, S, hold=hold, held=held):
+            waiting = [t for t in en if t >= 100 and S.pending.get(t, (None, None)) == ('react', hold)]
+            users = [t for t in en if t < 100]
+            if waiting and users and held['n'] < 400:
+                held['n'] += 1
+                return users[0]                      # keep the reaction pending while the user thread goes on
+            nts = sorted(t for t in en if t >= 100)
+            return nts[0] if nts else sorted(en)[0]
+        r = run_world(C, servers, 0, 0, [ops], policy, rng)
+        ctx.case(('held-reaction', first, hold, tuple(ops), tuple(r['ran'])),
+                 sample={'kind': 'held-reaction', 'servers': servers, 'held_before': hold, 'ops': ops, 'outcomes': r['outs']})
+        ctx.count('held-reaction.' + hold.replace(' ', '-'))
+        oracle(ctx, servers, 0, 0, [ops], r, 'reaction to %r held back while the user thread disconnects and reconnects' % hold)
     ends_tie(ctx)
+    # ---- Model/C16Carry.lean: the object across sessions, operation by operation (corr/c16carry.py)
+    from corr import c16carry
+    c16carry.tie(ctx)
 
 
 def ends_tie(ctx):
